@@ -318,6 +318,12 @@ func (s *Stream) ReceiveFrame(ctx context.Context) ([]byte, error) {
 		if s.gcm != nil && s.encrypted {
 			return nil, fmt.Errorf("empty frame on encrypted stream")
 		}
+		// Track header for AAD digest calculation (the sender always feeds the
+		// header, so an empty cleartext frame must feed it here too)
+		if s.recvDigest != nil && s.finalRecvDigest == nil {
+			s.recvDigest.Write(header)
+			s.recvDigestWritten = true
+		}
 		return []byte{}, nil
 	}
 
